@@ -134,11 +134,30 @@ func checkCmd(args []string) int {
 	doneSym := map[string]bool{}
 	for _, un := range plan.Units {
 		if un.Lemma != "" {
-			obs := u.verifyLemma(un.Lemma)
-			if obs == nil {
-				u.problem("lemma %s not found in the contract files", un.Lemma)
+			var lm *Lemma
+			for _, l := range u.Lemmas {
+				if l.Name == un.Lemma {
+					lm = l
+				}
 			}
-			groups = append(groups, obs)
+			if lm == nil {
+				u.problem("lemma %s not found in the contract files", un.Lemma)
+				continue
+			}
+			if len(lm.Vars) > 0 {
+				tm, err := u.lemmaTemplate(lm, st)
+				if err != nil {
+					u.problem("%v", err)
+					continue
+				}
+				templates = append(templates, tm)
+				u.Oracle.collectTemplate(tm)
+				obs := tm.instances()
+				famCounts[tm.Fn.Key+"/"+tm.Fam.Name] = len(obs)
+				groups = append(groups, obs)
+				continue
+			}
+			groups = append(groups, u.verifyLemma(un.Lemma))
 			continue
 		}
 		fi := u.Funcs[un.Func]
@@ -423,7 +442,7 @@ func checkCmd(args []string) int {
 	return 0
 }
 
-var expectedMin = map[string]int{"C01": 5000, "C02": 15000, "C03": 340000, "C04": 10000, "C05": 70000, "C20": 200}
+var expectedMin = map[string]int{"C01": 5000, "C02": 15000, "C03": 340000, "C04": 10000, "C05": 70000, "C20": 200, "C06": 400000, "C13": 400000}
 
 func contractFiles(u *Universe) []string {
 	seen := map[string]bool{}
